@@ -323,7 +323,7 @@ func (c *Ctx) auditIndependence(m *contractsModel, rule string, eventsOnly bool)
 			}
 		}
 	}
-	c.R.Floor(rule, "EnableAudit branches", n, 50)
+	c.R.Floor(rule, "EnableAudit branches", n, 40) // 51 on the pinned tree; a shared publish helper merges several
 }
 
 // eventTypesOf: the event-type constants (without the Event_ prefix) an instruction may post, through
